@@ -50,6 +50,16 @@ func main() {
 		b, _ = io.ReadAll(os.Stdin)
 	}
 	src := string(b)
+	switch os.Getenv("BOTH_ONLY") {
+	case "ref":
+		r := e1.RunRef(src, nil)
+		fmt.Println("ref only: events", len(r.Trace), "failed", r.Failed, "unspecified", r.Unspecified, "parse", r.ParseErr)
+		return
+	case "gl":
+		g := e1.RunGopher(src, &e1.GOpts{Budget: 50_000_000, MaxEvents: 100000})
+		fmt.Println("gl only: events", len(g.Trace), "failed", g.Failed, g.ErrText, "overrun", g.Overrun, "panic", g.Panic)
+		return
+	}
 	if min && differs(src) {
 		src = minimise(src)
 		fmt.Println("---- minimised source")
